@@ -575,3 +575,79 @@ func init() {
 			}
 		}})
 }
+
+func init() {
+	register(&Rule{ID: "W.keep", Min: 3, Text: "a node that refuses a removal stays in the index: in RGATreeSplit.deleteNodes the boundary list handed to deleteIndexNodes (everything between two consecutive boundaries is cut out of the order-statistic tree) receives the left edge, the right edge, and — on the false edge of node.Remove(…) — every candidate that was not removed (a concurrent insert the deleting change had not seen); the removed ones are recorded on the true edge. A live node left between two boundaries drops out of the index weights while the text still shows it",
+		Run: func(x *Ctx) {
+			fn := x.fn(crdtPkg + ".(*RGATreeSplit).deleteNodes")
+			if fn == nil {
+				x.C.Unresolved(x.id(), crdtPkg+".RGATreeSplit.deleteNodes")
+				return
+			}
+			k := "func=" + prog.FnName(fn)
+			calleeName := func(c ssa.CallInstruction) string {
+				if o := prog.CallObj(c); o != nil {
+					return o.Name()
+				}
+				if f := c.Common().StaticCallee(); f != nil && f.Origin() != nil {
+					return f.Origin().Name()
+				}
+				return ""
+			}
+			var rem, cut, edges ssa.CallInstruction
+			for _, c := range prog.CallsIn(fn) {
+				switch calleeName(c) {
+				case "Remove":
+					rem = c
+				case "deleteIndexNodes":
+					cut = c
+				case "findEdgesOfCandidates":
+					edges = c
+				}
+			}
+			if rem == nil || cut == nil || edges == nil {
+				x.fail(k+" shape", x.fpos(fn), "deleteNodes no longer removes candidates, finds the edges and cuts the index")
+				return
+			}
+			boundary := cut.Common().Args[len(cut.Common().Args)-1]
+			// appends that feed the boundary list
+			var apps []*ssa.Call
+			for _, ap := range builtinCalls(fn, "append") {
+				if prog.DependsOn(boundary, func(w ssa.Value) bool { return w == ssa.Value(ap) }) {
+					apps = append(apps, ap)
+				}
+			}
+			node := recvOf(rem)
+			kept := false
+			for _, ap := range apps {
+				if len(ap.Call.Args) < 2 || !prog.DependsOn(ap.Call.Args[1], func(w ssa.Value) bool { return prog.Strip(w) == prog.Strip(node) }) {
+					continue
+				}
+				// on the false edge of Remove
+				if x.quietGuarded(ap, []Cmp{isFalse(vpValue(rem.Value()))}) {
+					kept = true
+				}
+			}
+			x.check(kept, k+" refused-candidate-is-a-boundary", x.pos(rem), "on the false edge of Remove the node is appended to the boundary list", "a candidate that refuses the removal is not appended to the boundary list: it is cut out of the index together with the removed nodes around it, although it stays live")
+			nEdges := 0
+			for _, ap := range apps {
+				if len(ap.Call.Args) >= 2 && prog.DependsOn(ap.Call.Args[1], func(w ssa.Value) bool {
+					ex, ok := w.(*ssa.Extract)
+					return ok && ex.Tuple == edges.Value()
+				}) {
+					nEdges++
+				}
+			}
+			x.check(nEdges >= 2, k+" both-edges-are-boundaries", x.pos(edges), "the left and the right edge are boundaries", "the edges outside the candidate range are no longer both in the boundary list: the cut extends over a live neighbour (or misses the range)")
+			// removed ones recorded on the true edge
+			rec := false
+			for _, b := range fn.Blocks {
+				for _, ins := range b.Instrs {
+					if mu, ok := ins.(*ssa.MapUpdate); ok && prog.Strip(mu.Value) == prog.Strip(node) && x.quietGuarded(mu, []Cmp{isTrue(vpValue(rem.Value()))}) {
+						rec = true
+					}
+				}
+			}
+			x.check(rec, k+" removed-candidate-is-recorded", x.pos(rem), "on the true edge of Remove the node is recorded as removed", "a removed candidate is no longer recorded in the result: no GC pair is registered for it and the reverse operation misses it")
+		}})
+}
